@@ -118,7 +118,7 @@ def norm(ev, module, e, local=None):
 
 # ------------------------------------------------------------------- format
 
-def rule_format(ctx, res, rule_id='R-C05-format'):
+def rule_format(ctx, res, rule_id='R-C05-format', literals_decided=False):
     model, ev = ctx.model, ctx.consts
     mod = model.module(CZ)
     table = ev.module_const(CZ, 'COMPRESSED_LUA_CHAR_TABLE')
@@ -136,7 +136,7 @@ def rule_format(ctx, res, rule_id='R-C05-format'):
     n = len(table)
     enc = model.func(CZ + ':compress_code')
     dec = model.func(CZ + ':decompress_code')
-    _format_encoder(ctx, res, rule_id, enc, mod, n)
+    _format_encoder(ctx, res, rule_id, enc, mod, n, literals_decided)
     _format_decoder(ctx, res, rule_id, dec, mod, n)
 
 
@@ -195,7 +195,8 @@ def _rename(e, mapping):
     return T().visit(clone(e))
 
 
-def _format_encoder(ctx, res, rule_id, enc, mod, n):
+def _format_encoder(ctx, res, rule_id, enc, mod, n,
+                    literals_decided=False):
     from .. import norm as N
     ev = ctx.consts
     u = ast.unparse
@@ -238,7 +239,14 @@ def _format_encoder(ctx, res, rule_id, enc, mod, n):
                     if not any(i_ in u(t) for (t, _v) in p.conds):
                         ok = False
             idx_ok = ok and stored
-    if idx_ok is None:
+    if idx_ok is None and literals_decided:
+        # the evaluated literal rule (all 256 one-byte texts) decides what
+        # the index array does; how it is built is then only information
+        res.info(rule_id, enc.qual,
+                 'literal index covers table entries 1..{}'.format(n - 1),
+                 'construction of the literal index not recognised (decided '
+                 'by evaluation instead)', enc.loc)
+    elif idx_ok is None:
         res.undecided(rule_id, enc.qual,
                       'literal index covers table entries 1..{}'.format(n - 1),
                       'construction of the literal index not recognised',
@@ -842,7 +850,7 @@ def rule_post(ctx, res):
     res.require_min('R-C05-post', 5)
 
 
-def rule_literals(ctx, res):
+def rule_literals(ctx, res, rule_id='R-C05-format'):
     """compress_code evaluated on every one-byte text (the literal table
     lookup, its index array and the 0x00 escape, for all 256 byte values):
     the stream must be the table index of the byte, or 0x00 followed by the
@@ -852,7 +860,7 @@ def rule_literals(ctx, res):
     try:
         f = ctx.model.func(q)
     except Exception:
-        res.vanished('R-C05-format', q, 'function', 'compress_code not found')
+        res.vanished(rule_id, q, 'function', 'compress_code not found')
         return
     table = ref.C_TABLE
     bad = []
@@ -878,20 +886,21 @@ def rule_literals(ctx, res):
                 bad.append('text {!r} is encoded as {!r} instead of {!r}'
                            .format(bytes([b]), got, want))
     except AnalysisError as e:
-        res.info('R-C05-format', q, 'one-byte texts evaluated',
+        res.info(rule_id, q, 'one-byte texts evaluated',
                  'not followed: ' + str(e)[:120], f.loc)
-        return
-    res.check(not bad, 'R-C05-format', q,
+        return False
+    res.check(not bad, rule_id, q,
               'every one-byte text is encoded as its table index, or as '
               '0x00 + the byte (evaluated for all 256 byte values)',
               '256 texts', '; '.join(bad[:3]) + (
                   ' (+{} more)'.format(len(bad) - 3) if len(bad) > 3 else ''),
               f.loc, semantic=True)
+    return not bad
 
 
 def run(ctx, res):
-    rule_format(ctx, res)
-    rule_literals(ctx, res)
+    lit = rule_literals(ctx, res)
+    rule_format(ctx, res, literals_decided=bool(lit))
     rule_post(ctx, res)
     rule_wellformed(ctx, res)
     rule_copy(ctx, res)
